@@ -790,6 +790,30 @@ func allKinds() []kind {
 			}
 			return c
 		}},
+		// the chain names of a packet are free strings: spellings a path cleaner would fold onto the proven pair ("x/..",
+		// "./", doubled or trailing slashes) name OTHER pairs and other slots
+		{"path/names-a-path-cleaner-would-fold", func(g *gen) *caseSpec {
+			c := g.trueBase("")
+			switch g.rng.Intn(8) {
+			case 0:
+				c.claim.src += "/x/.."
+			case 1:
+				c.claim.dst = "./" + c.claim.dst
+			case 2:
+				c.claim.src += "/"
+			case 3:
+				c.claim.dst += "/."
+			case 4:
+				c.claim.src = "y/../" + c.claim.src
+			case 5:
+				c.claim.dst = c.claim.dst + "//"
+			case 6:
+				c.claim.src, c.claim.dst = c.claim.src+"/"+c.claim.dst, "."
+			default:
+				c.claim.src, c.claim.dst = ".", c.claim.src+"/"+c.claim.dst
+			}
+			return c
+		}},
 		{"path/other-src", func(g *gen) *caseSpec { c := g.trueBase(""); c.claim.src += "a"; return c }},
 		{"path/other-dst", func(g *gen) *caseSpec { c := g.trueBase(""); c.claim.dst = "z" + c.claim.dst; return c }},
 		{"path/other-packet-proof", func(g *gen) *caseSpec {
